@@ -425,9 +425,14 @@ def ft7(prog, rr):
             def ev(node, st, dom, hits=hits):
                 if isinstance(node, ast.Call) and call_name(node) in ("add_constraint", "add_dynamic_constraint"):
                     hits.add(call_name(node))
-            specialise(b, None, None, None, on_event=ev, assume={
-                "isinstance(fo, constraint_t)": val == "constraint_t", "isinstance(fo, dynamic_constraint_t)": val == "dynamic_constraint_t",
-                "self._int_field_info.model is None": True, "hasattr(fo, '_int_field_info')": False})
+            from sa.ir import find_local
+            fos = find_local(b.node, lambda v: isinstance(v, ast.Call) and call_name(v) == "getattr") or ["fo"]
+            asm = {"self._int_field_info.model is None": True}
+            for fo in fos:
+                asm["isinstance(%s, constraint_t)" % fo] = (val == "constraint_t")
+                asm["isinstance(%s, dynamic_constraint_t)" % fo] = (val == "dynamic_constraint_t")
+                asm["hasattr(%s, '_int_field_info')" % fo] = False
+            specialise(b, None, None, None, on_event=ev, assume=asm)
             rr.inst("build_field_model(%s) -> %s" % (val, sorted(hits)))
             if hits != {want}:
                 rr.finding(b, b.node, "randobj.build_field_model", "FT7: a %s block is registered through %s; expected %s only" % (val, sorted(hits) or "nothing", want),
